@@ -33,6 +33,15 @@ func ruleEF1() Rule {
 				return
 			}
 			var reader *core.Func
+			readFn, unreadFn := c.fn("parser.(*lexer).read"), c.fn("parser.(*lexer).unread")
+			inRegionOf := func(anchor, f *core.Func) bool {
+				for _, g := range c.region(anchor) {
+					if g == f.Root() {
+						return true
+					}
+				}
+				return false
+			}
 			for _, f := range c.funcsOfPkg("parser", false) {
 				info := f.Info()
 				f.OwnNodes(func(n ast.Node) bool {
@@ -50,11 +59,14 @@ func ruleEF1() Rule {
 						if f.Short == "(*lexer).read" {
 							reader = f
 							rr.OK(f, key, call.Pos(), "single-reader", "the only place that reads the source")
+						} else if readFn != nil && inRegionOf(readFn, f) {
+							reader = readFn
+							rr.OK(f, key, call.Pos(), "single-reader", "a private helper of lexer.read: still the only place that reads the source")
 						} else {
 							rr.Bad(f, key, call.Pos(), "the source is read outside lexer.read: its error is not recorded and the line/column bookkeeping is bypassed")
 						}
 					case "UnreadRune":
-						if f.Short == "(*lexer).unread" {
+						if f.Short == "(*lexer).unread" || unreadFn != nil && inRegionOf(unreadFn, f) {
 							rr.OK(f, key, call.Pos(), "single-unreader", "the only place that pushes a rune back")
 						} else {
 							rr.Bad(f, key, call.Pos(), "UnreadRune is called outside lexer.unread")
@@ -72,12 +84,21 @@ func ruleEF1() Rule {
 			var errVar types.Object
 			reader.OwnNodes(func(n ast.Node) bool {
 				as, ok := n.(*ast.AssignStmt)
-				if !ok || len(as.Rhs) != 1 || len(as.Lhs) != 3 {
+				if !ok || len(as.Rhs) != 1 || len(as.Lhs) < 2 {
 					return true
 				}
 				if call, ok := as.Rhs[0].(*ast.CallExpr); ok {
+					isSrc := false
 					if se, ok := call.Fun.(*ast.SelectorExpr); ok && se.Sel.Name == "ReadRune" && core.FieldOf(info, se.X) == src {
-						if id, ok := as.Lhs[2].(*ast.Ident); ok {
+						isSrc = true
+					} else if fo := core.StaticCallee(info, call); fo != nil {
+						// a private helper of read that takes the character from the source
+						if h := c.P.FuncOf(fo); h != nil && h != reader && inRegionOf(reader, h) && callsReadRuneOn(h, src) {
+							isSrc = true
+						}
+					}
+					if isSrc {
+						if id, ok := as.Lhs[len(as.Lhs)-1].(*ast.Ident); ok {
 							errVar = info.Defs[id]
 							if errVar == nil {
 								errVar = info.Uses[id]
@@ -136,6 +157,21 @@ func ruleEF1() Rule {
 				rr.Bad(reader, reader.Name+"|records-error", reader.Pos(), "read never stores ReadRune's error into the lexer's error slot: a failing reader looks like end of input")
 			}
 		}}
+}
+
+// callsReadRuneOn reports whether h calls ReadRune on the given field.
+func callsReadRuneOn(h *core.Func, src *types.Var) bool {
+	found := false
+	info := h.Info()
+	h.OwnNodes(func(n ast.Node) bool {
+		if call, ok := n.(*ast.CallExpr); ok {
+			if se, ok := call.Fun.(*ast.SelectorExpr); ok && se.Sel.Name == "ReadRune" && core.FieldOf(info, se.X) == src {
+				found = true
+			}
+		}
+		return !found
+	})
+	return found
 }
 
 func allowedRecordGuard(info *types.Info, gd guard, errVar types.Object, slot *types.Var) bool {
